@@ -297,5 +297,16 @@ func verifScenarioProcessBlockRelease() {
 		vnd.Assert(r.x.pend[i].releases == 1, "a block awaiting release was not released after the state write")
 	}
 	vnd.Assert(len(bl.blocksToRelease) == 0 && bl.blockReleaseWakeup.isBlocking, "release wake-up not disarmed although nothing awaits release")
+	verifWrittenOnlyAfterSuccess(r.src.events)
 	verifPBLInvariant(bl, "after ProcessBlockRelease")
+}
+
+// verifWrittenOnlyAfterSuccess: the list is told "the state has been written" (which makes
+// released blocks reusable) only directly after a state write that SUCCEEDED, once per write.
+func verifWrittenOnlyAfterSuccess(events []string) {
+	for i, e := range events {
+		if e == "written" {
+			vnd.Assert(i > 0 && events[i-1] == "write-ok", "the block list was told that the state has been written although the last state write had not (just) succeeded: released blocks become reusable while the file on disk still lists them")
+		}
+	}
 }
